@@ -300,6 +300,7 @@ func convert(e filesystem.Extractor, pkgs []*extractor.Package, tag string, is i
 			n++
 			if !has(px.GetSpecific(us[i].u.Name, us[i].u.Type), pk) || !has(px.GetAllOfType(us[i].u.Type), pk) || !has(px.GetAll(), pk) {
 				is.add("%sindex-miss", tag)
+				det(pk, tag+"index-miss: GetSpecific("+us[i].u.Name+", "+us[i].u.Type+") does not return the package", us[i].s)
 			}
 		}
 		if len(px.GetAll()) != n {
@@ -326,6 +327,9 @@ func convert(e filesystem.Extractor, pkgs []*extractor.Package, tag string, is i
 		}
 		for i, pk := range pkgs {
 			g := got[i]
+			if pk.Metadata != nil && g.GetMetadata() == nil && tag == "" {
+				droppedMeta[metaTypeName(pk.Metadata)] = true // the proto switch has no case for this metadata type
+			}
 			if g.GetName() != pk.Name {
 				is.add("%sproto-name", tag)
 			}
@@ -427,6 +431,19 @@ func (d *details) str() string { return hx.Join(d.d, ",") }
 
 var emitProto func(protoCase)
 
+// droppedMeta: metadata types of REAL extractor output for which the result proto's metadata oneof stayed unset
+var droppedMeta = map[string]bool{}
+
+func droppedStr() string {
+	var o []string
+	for k := range droppedMeta {
+		o = append(o, hx.Hex(k))
+	}
+	sort.Strings(o)
+	droppedMeta = map[string]bool{}
+	return hx.Join(o, ",")
+}
+
 func runHarvest(f fixture, emitIndex func([]purlMeta)) string {
 	is := issues{}
 	dt := &details{}
@@ -510,7 +527,7 @@ func runHarvest(f fixture, emitIndex func([]purlMeta)) string {
 		})
 		emitIndex(ms)
 	}
-	return fmt.Sprintf("pk=%d purls=%d issues=%s bad=%s", len(pkgs), purls, issuesStr(is), dt.str())
+	return fmt.Sprintf("pk=%d purls=%d issues=%s bad=%s drop=%s", len(pkgs), purls, issuesStr(is), dt.str(), droppedStr())
 }
 
 // ---------------------------------------------------------------- production layout
@@ -672,7 +689,7 @@ func runLayout(scratch, variant string) string {
 				break
 			}
 		}
-		return fmt.Sprintf("pk=%d purls=%d byex=%s types=%s issues=%s bad=%s purlsum=%x sample=%s", len(inv.Packages), purls, hx.Join(byS, ","), hx.Join(ts, ","), issuesStr(is), dt.str(), sum[:4], hx.Hex(sample))
+		return fmt.Sprintf("pk=%d purls=%d byex=%s types=%s issues=%s bad=%s drop=%s purlsum=%x sample=%s", len(inv.Packages), purls, hx.Join(byS, ","), hx.Join(ts, ","), issuesStr(is), dt.str(), droppedStr(), sum[:4], hx.Hex(sample))
 	})
 }
 
